@@ -82,6 +82,18 @@ HISTORIES = {
                    ("change", "main.oal", [(R(0, 11, 0, 13), "\U0001F600\U0001F600"), (R(0, 11, 0, 13), "a")])],
         "probe": ("main.oal", {"line": 1, "character": 35}),
     },
+    "edit-of-an-unrelated-document-right-after-a-relevant-edit": {
+        "disk": {"main.oal": "let a = num;\nres / on get -> <a>;\n", "notes.oal": "let n = str;\n"},
+        "script": [("open", "main.oal", "let a = num;\nres / on get -> <a>;\n"), ("open", "notes.oal", "let n = str;\n"), ("sync", "main.oal"),
+                   ("change", "main.oal", [(R(0, 8, 0, 11), "nope")]), ("change", "notes.oal", [(R(0, 8, 0, 11), "int")])],
+        "probe": ("main.oal", {"line": 1, "character": 18}),
+    },
+    "relevant-edit-fixed-while-an-unrelated-document-changes": {
+        "disk": {"main.oal": "let a = nope;\nres / on get -> <a>;\n", "notes.oal": "let n = str;\n"},
+        "script": [("open", "notes.oal", "let n = str;\n"), ("open", "main.oal", "let a = num;\nres / on get -> <a>;\n"), ("sync", "main.oal"),
+                   ("change", "main.oal", [(R(0, 4, 0, 5), "b"), (R(1, 17, 1, 18), "b")]), ("change", "notes.oal", [(None, "let n = {};\n")]), ("change", "notes.oal", [(R(0, 0, 0, 0), "// x\n")])],
+        "probe": ("main.oal", {"line": 1, "character": 18}),
+    },
     "compile-error-after-a-good-state": {
         "disk": {"main.oal": "res / on get -> <{}>;\n"},
         "script": [("open", "main.oal", "let a = { 'x num };\nlet b = a;\nres /r on get -> <b>;\n"), ("sync", "main.oal"),
